@@ -2,6 +2,7 @@
 from __future__ import annotations
 
 import math
+import zlib
 from fractions import Fraction
 
 import numpy as np
@@ -669,6 +670,13 @@ def run_case(ctx, case):
     ctx.feature("RxC", f"{p['R']}x{p['C']}")
     if case.get("exec") is not None and plan_ok:
         execute(ctx, case, plan, M, plan_ok)
+        if zlib.crc32(repr(sorted(p.items(), key=lambda kv: kv[0])).encode()) % 4 == 0:
+            # a plan object is reusable: writing it to a second worklist (fresh labware) must work the same,
+            # and judging it again must find the same plan
+            ctx.count("plan_executed_a_second_time")
+            M2, ok2 = judge_plan(ctx, case, plan)
+            if M2 is not None and ok2:
+                execute(ctx, case, plan, M2, ok2)
         if serial:
             ctx.count("executions_with_serial_dilution")
         if shared:
